@@ -9,6 +9,37 @@ def main(argv=None):
     ck = Check("C16", argv, level="proof")
     res = world.run_functions(ck, ["proxy"], FUNCS, timeout=20 if ck.tier == "quick" else 60, hooks_mod="contracts.proxy")
     world.report(ck, res)
+    # the quoting gate of undquote(): QUOTED_STRING_RE (as compiled in the tree under check) used as `match` + `end() == len` accepts exactly
+    # RFC 9110's quoted-string -- decided on automata for values of every length, witness replayed through the real undquote()
+    import time as _t
+    from vlib import relang as rl
+    from spec import rfc
+    t0 = _t.time()
+    obn = "utilities.undquote/site:quoted-value/lang-eq"
+    try:
+        pat = rl.PyPattern(ck.repo.module("rfc7230").QUOTED_STRING_RE)
+        code_re = pat.language("fullmatch")
+        masks = set()
+        rl.masks_in(code_re, masks); rl.masks_in(rfc.QUOTED_STRING, masks)
+        for b in (b'"', b"\\", b"\t", b" ", b"\x7f", b"\x00"):
+            masks.add(rl.mask_of(b))
+        masks.add(rl.mask_range(0x80, 0xFF))
+        alpha = rl.Alphabet(masks)
+        diff = rl.dfa(alpha, code_re) ^ rl.dfa(alpha, rfc.QUOTED_STRING)
+        if diff.is_empty():
+            ck.ob(obn, "discharged", backend="relang-dfa", secs=_t.time() - t0, clause="a value that starts and ends with DQUOTE is accepted by undquote() iff it is a quoted-string")
+        else:
+            w = diff.shortest()
+            rep = ck.native("undquote_one", {"value": w.decode("latin-1")}, timeout=60)
+            real_accepts, spec_accepts = rep.get("accepted"), rl.dfa(alpha, rfc.QUOTED_STRING).accepts(w)
+            if real_accepts is None or real_accepts == spec_accepts:
+                ck.ob(obn, "undecided", backend="relang", secs=_t.time() - t0, detail={"reason": "witness %r does not replay on the real undquote()" % (w,), "native": rep})
+            else:
+                ck.fail(obn, "witness:" + w.hex(), "undquote(%r) is %s although the value is %s a quoted-string" % (w.decode("latin-1"), "accepted" if real_accepts else "refused", "" if spec_accepts else "not"),
+                        replay={"witness": repr(w), "native": rep}, reproduced=True)
+                ck.ob(obn, "violated", backend="relang-dfa", secs=_t.time() - t0)
+    except Exception as ex:
+        ck.ob(obn, "undecided", backend="relang", secs=_t.time() - t0, detail={"reason": "quoted-string gate not analysable: %r" % (ex,)})
     # bounded stand-ins (labelled bounded, never counted as proved): exact hop selection and hostile values on the real middleware
     for routine, what, payload in (("hops_check", "hop selection: the trusted_proxy_count-th hop from the right (leftmost if fewer) for X-Forwarded-For and Forwarded, no untrusted hop value reaches the application",
                                     {"max_hops": 5, "max_count": 4}),
